@@ -173,6 +173,7 @@ type crDialOutcome struct {
 	Sched      string
 	Trouble    string
 	Dur        time.Duration
+	DialErrs   []string
 }
 
 // runDialBehaviour drives one behaviour. listStyle: 0 plain, 1 duplicates, 2 one reachable candidate relay-prefixed.
@@ -257,11 +258,18 @@ func runDialBehaviour(path []*graph.Edge, K int, reach map[int]bool, ips []strin
 		err error
 	}
 	retCh := make(chan ret, 1)
+	var updMu sync.Mutex
 	pctx, pcancel := context.WithTimeout(context.Background(), 8*time.Second)
 	defer pcancel()
 	t0 := time.Now()
 	go func() {
-		c, err := prober.ProbeAndDial(pctx, list, quictransport.ClientConfig(), quictransport.DefaultClientQUICConfig(), nil)
+		c, err := prober.ProbeAndDial(pctx, list, quictransport.ClientConfig(), quictransport.DefaultClientQUICConfig(), func(u ice.ProbeUpdate) {
+			if u.Err != nil {
+				updMu.Lock()
+				out.DialErrs = append(out.DialErrs, u.Addr+": "+u.Err.Error())
+				updMu.Unlock()
+			}
+		})
 		retCh <- ret{c, err}
 	}()
 	parkedSet := map[int]bool{}
@@ -374,6 +382,30 @@ drain:
 		r.c.CloseWithError(0, "")
 	} else if r.err != nil {
 		out.RetErr = r.err.Error()
+		// was the listener reachable at all?  (an independent dial from a fresh socket)
+		if len(reach) > 0 {
+			ok := false
+			for k := 1; k <= K && !ok; k++ {
+				if !reach[k] {
+					continue
+				}
+				addr := strings.TrimPrefix(cand[k], "turn:")
+				if ra, err := net.ResolveUDPAddr("udp", addr); err == nil {
+					if cu, err := net.ListenUDP("udp", &net.UDPAddr{}); err == nil {
+						dctx, dcancel := context.WithTimeout(context.Background(), 3*time.Second)
+						if qc, err := quictransport.DialWithConfig(dctx, cu, ra, authQuiet, quictransport.DefaultClientQUICConfig()); err == nil {
+							ok = true
+							qc.CloseWithError(0, "")
+						}
+						dcancel()
+						cu.Close()
+					}
+				}
+			}
+			if !ok {
+				out.Trouble = "the harness listener was not reachable by an independent dial either: " + strings.Join(out.DialErrs, "; ")
+			}
+		}
 	}
 	for _, q := range open {
 		q.CloseWithError(0, "")
@@ -449,7 +481,7 @@ func ConnRaceDial(args []string) {
 		res.Behaviours++
 		res.Steps += len(proj)
 		replay := map[string]any{"reach": x.Reach, "model_schedule": proj, "observed": o.Sched, "list_style": style,
-			"returned": o.Returned, "ret_err": o.RetErr, "open_at_listener": o.OpenAtPeer, "accepted_at_listener": o.Accepted, "won_events": o.Won}
+			"returned": o.Returned, "ret_err": o.RetErr, "open_at_listener": o.OpenAtPeer, "accepted_at_listener": o.Accepted, "won_events": o.Won, "dial_errors": o.DialErrs}
 		switch {
 		case o.Returned && (o.OpenAtPeer != 1 || !o.RetOpen):
 			kind := "extra_connection_left_open"
